@@ -17,7 +17,9 @@ N2 == Num(2)
 N3 == Num(3)
 E1Edbs ==
   { {A("e", <<N1, N2>>), A("e", <<N2, N3>>), A("f", <<N1>>)},
-    {A("e", <<N1, N1>>), A("e", <<N1, N2>>), A("e", <<N2, N1>>), A("f", <<N2>>)} }
+    {A("e", <<N1, N1>>), A("e", <<N1, N2>>), A("e", <<N2, N1>>), A("f", <<N2>>)},
+    \* base facts stated for predicates that rules may also define
+    {A("e", <<N1, N2>>), A("e", <<N2, N3>>), A("f", <<N3>>), A("p", <<N1>>), A("q", <<N3>>)} }
 KeepAll(r) == TRUE
 KeepSafe(r) == Safe(r)
 E1Bodies(k) == UNION {[1..j -> E1Lits] : j \in 1..k}
